@@ -592,6 +592,9 @@ class World:
         elif how == "midline":
             c.send_raw(self._fragment(cid, nick).encode("utf-8"))
             c.close()
+        elif how == "quit":
+            # (unfinished registrations only; a registered client's QUIT is an ordinary command of the model)
+            c.send("QUIT :leaving before ever arriving")
         elif how == "badutf8":
             c.send_raw(b"PRIVMSG x :\xff\xfe\xfd\r\n")
         elif how == "toolong":
@@ -608,7 +611,7 @@ class World:
             c.close_rst()
         else:
             raise ValueError(how)
-        if how in ("halfclose", "badutf8", "toolong"):
+        if how in ("halfclose", "badutf8", "toolong", "quit"):
             # the server ends the connection: EOF is the barrier
             _, kind = c.read_to_eof(5.0)
             if kind is None:
